@@ -168,6 +168,47 @@ def observer_pairs():
     return out
 
 
+def component_documents(ctx, vh):
+    """documents that instantiate QML components of their directory: one fault planted in an ordinary object -- the <customwidgets> section (which class each
+    component extends, which header declares it) and everything else outside the faulty object stay what they are"""
+    import os
+    import shutil
+    work = os.path.join(C.BUILD, "c20comp")
+    shutil.rmtree(work, ignore_errors=True)
+    comps = {"MyButtonBox.qml": "import qmluic.QtWidgets\nQDialogButtonBox {\n}\n", "Panel.qml": "import qmluic.QtWidgets\nQGroupBox {\n}\n"}
+    main = ("import qmluic.QtWidgets\nQDialog {\n    id: root\n    QVBoxLayout {\n        QLabel {\n            id: caption\n            text: \"c\"\n%s        }\n"
+            "        Panel { id: panel; title: \"p\" }\n        MyButtonBox { id: buttonBox }\n    }\n}\n")
+    faults = [("ill-typed", "            wordWrap: \"yes\"\n"), ("unknown-property", "            fooBar: 1\n"), ("unknown-signal", "            onFooBar: root.accept()\n"),
+              ("unknown-attached-type", "            QFooBar.row: 1\n"), ("handler-body", "            onLinkActivated: root.fooBar()\n"), ("duplicate", "            text: \"d\"\n")]
+    cases = []
+    for k, (kind, line) in enumerate([("none", "")] + faults):
+        d = os.path.join(work, "c%d" % k)
+        os.makedirs(d)
+        for f, t in comps.items():
+            open(os.path.join(d, f), "w").write(t)
+        open(os.path.join(d, "Main.qml"), "w").write(main % line)
+        cases.append({"root": d, "sources": ["Main.qml"], "dirs": [], "mode": "omit"})
+    out = C.harness_run(vh, "project", cases, timeout=300)
+    ref = None
+    for (kind, line), r in zip([("none", "")] + faults, out):
+        ctx.count(("component-document", kind), True)
+        ctx.dist("fault-in-a-document-with-components")
+        if not isinstance(r, dict) or "docs" not in r or r["docs"][0].get("ui") is None:
+            ctx.violation("no preview form for a document that uses QML components (%s fault)" % kind, {"qml_faulted": main % line, "impl_output": str(r)[:600]})
+            continue
+        ui = r["docs"][0]["ui"]
+        cw = re.findall(r"<customwidgets>.*?</customwidgets>", ui, re.S)
+        if kind == "none":
+            ref = cw
+            continue
+        if not any(x["kind"] == "error" for x in r["docs"][0]["diags"]):
+            ctx.violation("the planted %s fault is not reported in preview mode" % kind, {"qml_faulted": main % line, "impl_output": r["docs"][0]["diags"]})
+        elif cw != ref:
+            ctx.violation("a %s fault at the label `caption` changes the <customwidgets> section of the form (%s vs %s)" % (kind, [len(x) for x in cw], [len(x) for x in ref or []]),
+                          {"qml_faulted": main % line, "qml_fault_free": main % "", "components": comps, "impl_output": ui, "theorem_or_correspondence": "C20_local / S"})
+    shutil.rmtree(work, ignore_errors=True)
+
+
 def canon(el, ids):
     """(tag, attrs, text, children) with generated names replaced by '*'"""
     attrs = dict(el.attrib)
@@ -274,6 +315,8 @@ def run(ctx):
         kind, o, bad, good = plant(rng, root)
         ctx.dist("fault-" + kind)
         cases.append((kind, o, bad, good, U.render(bad), U.render(good)))
+    if not ctx.replay:
+        component_documents(ctx, vh)
     for c in pseudo_pairs():
         ctx.dist("fault-ill-typed-pseudo (constructed)")
         cases.append(c)
